@@ -90,17 +90,24 @@ fn partial_encode(
         output_handle.erase()
     } else {
         // Store the updated chunk
+        // The whole value is rewritten: erase it first, since a partial write at offset 0 never truncates
+        // and a shorter encoding would otherwise keep the tail of the previous one
         let chunk_bytes = codec.encode(chunk_bytes, decoded_representation, options)?;
         #[cfg(feature = "async")]
         if _async {
+            output_handle.erase().await?;
             output_handle
                 .partial_encode(&[(0, chunk_bytes)], options)
                 .await
         } else {
+            output_handle.erase()?;
             output_handle.partial_encode(&[(0, chunk_bytes)], options)
         }
         #[cfg(not(feature = "async"))]
-        output_handle.partial_encode(&[(0, chunk_bytes)], options)
+        {
+            output_handle.erase()?;
+            output_handle.partial_encode(&[(0, chunk_bytes)], options)
+        }
     }
 }
 
